@@ -13,6 +13,7 @@
 //! Every computation is logged as a `Digest` event whose `covered` field (names and content ids of
 //! the immutable files numbered up to the beacon) is recomputed from the real directory with code
 //! of this harness.  TLC validates the trace against spec/db/DbDigestTrace.tla.
+use std::collections::HashSet;
 use std::path::{Path, PathBuf};
 use std::sync::Arc;
 
@@ -69,7 +70,8 @@ fn probe_decoy(work: &Path) -> DecoyPlan {
 #[derive(Clone)]
 struct Node {
     kind: String,
-    imm: Vec<(u64, String, u64)>, // (num, ext, cid)
+    imm: Vec<(u64, String, u64)>, // (num, ext, cid): the regular files
+    nonreg: Vec<(u64, String, String, i64)>, // (num, ext, "dir" | "dangling" | "link", cid behind the link)
     other: Vec<String>,
     bad: bool,
     decoy: String,
@@ -79,22 +81,34 @@ struct Node {
     pred: Vec<(bool, Vec<u64>)>,
 }
 
-/// one computation of a history: `compute_merkle_tree` at beacon `hi` (op "tree") or
-/// `compute_digests_for_range(lo..=hi)` (op "range"), with or without the node's digest cache
+/// one step of a history: a computation -- `compute_merkle_tree` at beacon `hi` (op "tree") or
+/// `compute_digests_for_range(lo..=hi)` (op "range") by the node's long-lived cache-less or cached
+/// digester object --, a change of the file `<num>.<ext>` on disk (op "perturb": content `cid`,
+/// -1 = removed), or a restart of the digester objects (op "restart")
 #[derive(Clone)]
 struct Step {
     op: &'static str,
     lo: u64,
     hi: u64,
     cache: bool,
+    name: String,
+    cid: i64,
 }
 
 fn tree(b: u64, cache: bool) -> Step {
-    Step { op: "tree", lo: 0, hi: b, cache }
+    Step { op: "tree", lo: 0, hi: b, cache, name: String::new(), cid: -1 }
 }
 
 fn range(lo: u64, hi: u64, cache: bool) -> Step {
-    Step { op: "range", lo, hi, cache }
+    Step { op: "range", lo, hi, cache, name: String::new(), cid: -1 }
+}
+
+fn perturb(name: String, cid: i64) -> Step {
+    Step { op: "perturb", lo: 0, hi: 0, cache: false, name, cid }
+}
+
+fn restart() -> Step {
+    Step { op: "restart", lo: 0, hi: 0, cache: false, name: String::new(), cid: -1 }
 }
 
 fn node_of_case(c: &Value) -> Node {
@@ -102,6 +116,10 @@ fn node_of_case(c: &Value) -> Node {
     Node {
         kind: s(&c["kind"]),
         imm: c["imm"].as_array().unwrap().iter().map(|f| (f["num"].as_u64().unwrap(), s(&f["ext"]), f["cid"].as_u64().unwrap())).collect(),
+        nonreg: c["nonreg"]
+            .as_array()
+            .map(|a| a.iter().map(|f| (f["num"].as_u64().unwrap(), s(&f["ext"]), s(&f["k"]), f["cid"].as_i64().unwrap())).collect())
+            .unwrap_or_default(),
         other: c["other"].as_array().unwrap().iter().map(s).collect(),
         bad: c["bad"].as_bool().unwrap(),
         decoy: s(&c["decoy"]),
@@ -112,10 +130,17 @@ fn node_of_case(c: &Value) -> Node {
             .unwrap()
             .iter()
             .map(|h| Step {
-                op: if h["op"] == "range" { "range" } else { "tree" },
+                op: match h["op"].as_str().unwrap() {
+                    "range" => "range",
+                    "perturb" => "perturb",
+                    "restart" => "restart",
+                    _ => "tree",
+                },
                 lo: h["lo"].as_u64().unwrap(),
                 hi: h["hi"].as_u64().unwrap(),
                 cache: h["cache"].as_bool().unwrap(),
+                name: if h["op"] == "perturb" { format!("{:05}.{}", h["num"].as_u64().unwrap(), h["ext"].as_str().unwrap()) } else { String::new() },
+                cid: h["cid"].as_i64().unwrap_or(-1),
             })
             .collect(),
         pred: c["pred"]
@@ -196,6 +221,21 @@ fn build_dir(db: &Path, node: &Node, seed: u64, case_ix: u64, plan: &DecoyPlan) 
     for (p, bytes) in &files {
         write_file(&db.join(p), bytes);
     }
+    // entries that are no regular files, under immutable file names
+    for (num, ext, kind, cid) in &node.nonreg {
+        let name = format!("{num:05}.{ext}");
+        let p = db.join("immutable").join(&name);
+        match kind.as_str() {
+            "dir" => write_file(&p.join("inner.bin"), b"a directory, not a file"),
+            "dangling" => std::os::unix::fs::symlink(db.join("elsewhere").join(format!("nothing-{name}")), &p).unwrap(),
+            "link" => {
+                let target = db.join("elsewhere").join(&name);
+                write_file(&target, &content(seed, *cid as u64));
+                std::os::unix::fs::symlink(&target, &p).unwrap();
+            }
+            k => panic!("unknown entry kind {k}"),
+        }
+    }
     Some(decoy.map(|d| d.0))
 }
 
@@ -203,20 +243,24 @@ fn build_dir(db: &Path, node: &Node, seed: u64, case_ix: u64, plan: &DecoyPlan) 
 /// with lo <= n <= beacon -- recomputed from the real directory
 fn covered(db: &Path, lo: u64, beacon: u64, int: &mut Interner) -> Value {
     let dir = db.join("immutable");
-    let mut v: Vec<(u64, String, u64)> = vec![];
+    let mut v: Vec<(u64, String, u64, &str)> = vec![];
     for name in readdir_order(&dir) {
         let p = dir.join(&name);
-        if !std::fs::symlink_metadata(&p).unwrap().is_file() {
+        let Some((num, _)) = parse_immutable_name(&name) else { continue };
+        if num < lo || num > beacon {
             continue;
         }
-        if let Some((num, _)) = parse_immutable_name(&name) {
-            if lo <= num && num <= beacon {
-                v.push((num, name, int.id_of_file(&p)));
-            }
+        let md = std::fs::symlink_metadata(&p).unwrap();
+        if md.is_file() {
+            v.push((num, name, int.id_of_file(&p), "reg"));
+        } else if md.file_type().is_symlink() && std::fs::metadata(&p).map(|t| t.is_file()).unwrap_or(false) {
+            // a symbolic link to a regular file: kept apart (kind "link", content read through it)
+            v.push((num, name, int.id_of_file(&p), "link"));
         }
+        // a directory, a dangling link: no file under that name
     }
     v.sort();
-    json!(v.iter().map(|(_, name, cid)| json!({"name": name, "cid": cid})).collect::<Vec<_>>())
+    json!(v.iter().map(|(_, name, cid, kind)| json!({"name": name, "cid": cid, "kind": kind})).collect::<Vec<_>>())
 }
 
 /// position of the second `immutable` directory's parent relative to `immutable` in the real
@@ -252,11 +296,10 @@ impl Runner {
         t.compute_root().unwrap().to_hex()
     }
 
-    /// `compute_digests_for_range(lo..=hi)` on the real code: the (file name, digest) entries in order
-    fn compute_range(&self, dirpath: &Path, lo: u64, hi: u64, cache_file: Option<&Path>) -> Guarded<Result<Vec<(String, String)>, String>> {
-        let provider: Option<Arc<dyn ImmutableFileDigestCacheProvider>> =
-            cache_file.map(|p| Arc::new(JsonImmutableFileDigestCacheProvider::new(p)) as Arc<dyn ImmutableFileDigestCacheProvider>);
-        let digester = CardanoImmutableDigester::new(provider, discard_logger());
+    /// `compute_digests_for_range(lo..=hi)` by the given (long-lived) real digester object: the
+    /// (file name, digest) entries in order
+    fn compute_range(&self, digester: &Arc<CardanoImmutableDigester>, dirpath: &Path, lo: u64, hi: u64) -> Guarded<Result<Vec<(String, String)>, String>> {
+        let digester = digester.clone();
         let dirpath = dirpath.to_path_buf();
         guarded(|| {
             self.rt.block_on(async move {
@@ -268,11 +311,10 @@ impl Runner {
         })
     }
 
-    /// one digest computation on the real code; `via`: "signable" | "digester"
-    fn compute(&self, dirpath: &Path, beacon: u64, cache_file: Option<&Path>, via: &str) -> Guarded<Result<String, String>> {
-        let provider: Option<Arc<dyn ImmutableFileDigestCacheProvider>> =
-            cache_file.map(|p| Arc::new(JsonImmutableFileDigestCacheProvider::new(p)) as Arc<dyn ImmutableFileDigestCacheProvider>);
-        let digester = Arc::new(CardanoImmutableDigester::new(provider, discard_logger()));
+    /// one Merkle-tree computation by the given (long-lived) real digester object;
+    /// `via`: "signable" | "digester"
+    fn compute(&self, digester: &Arc<CardanoImmutableDigester>, dirpath: &Path, beacon: u64, via: &str) -> Guarded<Result<String, String>> {
+        let digester = digester.clone();
         let b = CardanoDbBeacon { epoch: Epoch(7), immutable_file_number: beacon };
         let dirpath = dirpath.to_path_buf();
         let via = via.to_string();
@@ -297,7 +339,7 @@ impl Runner {
     fn run_node(&mut self, work: &Path, case_ix: u64, node: &Node, plan: &DecoyPlan) -> bool {
         // consecutive nodes with the same disk share the directory (computations never write below
         // <db>); every node starts with its own empty cache
-        let layout = format!("{:?}|{:?}|{}|{}|{}", node.imm, node.other, node.bad, node.decoy, if node.order.starts_with("shuffle") { format!("{}{case_ix}", node.order) } else { node.order.clone() });
+        let layout = format!("{:?}|{:?}|{:?}|{}|{}|{}", node.imm, node.nonreg, node.other, node.bad, node.decoy, if node.order.starts_with("shuffle") { format!("{}{case_ix}", node.order) } else { node.order.clone() });
         let (base, decoy_parent) = match &self.reuse {
             Some((l, b, d)) if *l == layout => (b.clone(), d.clone()),
             _ => {
@@ -317,17 +359,70 @@ impl Runner {
         let _ = std::fs::remove_file(&cache_file);
         let dirpath = if node.entry == "immdir" { db.join("immutable") } else { db.clone() };
         let decoy = observed_decoy(&db, &decoy_parent);
+        // the node's two long-lived real digester objects: built without cache provider, and with
+        // the JSON provider over the node's cache file; they live across the steps of the history
+        let new_objects = |cache_file: &Path| -> (Arc<CardanoImmutableDigester>, Arc<CardanoImmutableDigester>) {
+            let provider: Arc<dyn ImmutableFileDigestCacheProvider> = Arc::new(JsonImmutableFileDigestCacheProvider::new(cache_file));
+            (Arc::new(CardanoImmutableDigester::new(None, discard_logger())), Arc::new(CardanoImmutableDigester::new(Some(provider), discard_logger())))
+        };
+        let (mut d_none, mut d_cache) = new_objects(&cache_file);
+        // bookkeeping of the history (the harness's own actions, not the code's): names a cached
+        // computation digested, names whose file changed on disk afterwards, and what happened to
+        // the files since the current cache-less object first computed
+        let mut cached_names: HashSet<String> = HashSet::new();
+        let mut tainted: HashSet<String> = HashSet::new();
+        let mut object_computed = false;
+        let mut changed_since_object_computed = false;
+        let mut changed_before_restart = false;
+        let mut touched_disk = false;
         for (step, st) in node.hist.iter().enumerate() {
+            if st.op == "perturb" {
+                let p = db.join("immutable").join(&st.name);
+                if st.cid < 0 {
+                    let _ = std::fs::remove_file(&p);
+                } else {
+                    write_file(&p, &content(self.seed, st.cid as u64));
+                }
+                touched_disk = true;
+                if cached_names.contains(&st.name) {
+                    tainted.insert(st.name.clone());
+                }
+                if object_computed {
+                    changed_since_object_computed = true;
+                }
+                continue;
+            }
+            if st.op == "restart" {
+                (d_none, d_cache) = new_objects(&cache_file);
+                changed_before_restart = changed_since_object_computed;
+                object_computed = false;
+                changed_since_object_computed = false;
+                continue;
+            }
             let (beacon, use_cache) = (&st.hi, &st.cache);
+            let digester = if *use_cache { &d_cache } else { &d_none };
             let routes: &[&str] = if st.op == "range" { &["range"] } else if *use_cache { &["signable"] } else { &["signable", "digester"] };
             for via in routes {
                 let cov = covered(&db, st.lo, *beacon, &mut self.int);
-                let cache_arg = use_cache.then_some(cache_file.as_path());
+                let processed: Vec<String> = cov.as_array().unwrap().iter().filter(|e| e["kind"] == "reg").map(|e| e["name"].as_str().unwrap().to_string()).collect();
+                // an explicit cache holding the digest of a file that changed since is allowed to be stale
+                let stale = *use_cache && processed.iter().any(|n| tainted.contains(n));
+                // a cache-less computation after the files changed: by the same object that computed
+                // before the change, or by a new one
+                let after_change = if *use_cache {
+                    "cached"
+                } else if changed_since_object_computed {
+                    "same_object"
+                } else if changed_before_restart {
+                    "new_object"
+                } else {
+                    "none"
+                };
                 // the value computed: the Merkle root, or (range) a digest of the returned
                 // (file name, digest) entries; `digests` keeps the entries themselves
                 let mut digests: Vec<String> = vec![];
                 let r = if st.op == "range" {
-                    match self.compute_range(&dirpath, st.lo, st.hi, cache_arg) {
+                    match self.compute_range(digester, &dirpath, st.lo, st.hi) {
                         Guarded::Done(Ok(entries)) => {
                             let joined: String = entries.iter().map(|(n, d)| format!("{n}={d};")).collect();
                             digests = entries.into_iter().map(|e| e.1).collect();
@@ -337,7 +432,7 @@ impl Runner {
                         Guarded::Panic(m) => Guarded::Panic(m),
                     }
                 } else {
-                    self.compute(&dirpath, *beacon, cache_arg, via)
+                    self.compute(digester, &dirpath, *beacon, via)
                 };
                 let (res, root, err) = match r {
                     Guarded::Done(Ok(root)) => ("ok", root, String::new()),
@@ -347,7 +442,15 @@ impl Runner {
                         ("panic", String::new(), m)
                     }
                 };
+                if *use_cache && res == "ok" {
+                    cached_names.extend(processed.iter().cloned());
+                }
+                if !*use_cache {
+                    object_computed = true;
+                }
                 let (pred_ok, pred_match) = match node.pred.get(step) {
+                    // a stale cached result is predicted by the model of the code, but that it is
+                    // stale in this exact way is not something to report as drift
                     Some((pok, cids)) => {
                         let m = if !*pok {
                             res != "ok"
@@ -373,10 +476,18 @@ impl Runner {
                 self.trace.emit(json!({
                     "ev": "Digest", "case": case_ix, "step": step + 1, "kind": node.kind, "via": via,
                     "op": st.op, "lo": st.lo, "beacon": beacon, "cache": use_cache, "covered": cov,
+                    "stale": stale, "afterChange": after_change,
                     "res": res, "root": root, "err": err_short,
                     "decoy": decoy, "entry": node.entry, "other": node.other, "bad": node.bad, "order": node.order,
+                    "nonreg": node.nonreg.iter().map(|e| e.2.clone()).collect::<Vec<_>>(),
                     "pred_ok": pred_ok, "pred_match": pred_match,
                 }));
+            }
+        }
+        if touched_disk {
+            // the directory is no longer the case's initial disk
+            if let Some((_, b, _)) = self.reuse.take() {
+                let _ = std::fs::remove_dir_all(&b);
             }
         }
         true
@@ -397,7 +508,7 @@ fn random_node(r: &mut ChaCha20Rng) -> Node {
     if imm.is_empty() {
         imm.push((0, "chunk".into(), 1));
     }
-    Node { kind: "random".into(), imm, other: vec![], bad: false, decoy: "none".into(), entry: "db".into(), order: "asc".into(), hist: vec![], pred: vec![] }
+    Node { kind: "random".into(), imm, nonreg: vec![], other: vec![], bad: false, decoy: "none".into(), entry: "db".into(), order: "asc".into(), hist: vec![], pred: vec![] }
 }
 
 fn random_hist(r: &mut ChaCha20Rng, last: u64, cache_only: bool) -> Vec<Step> {
@@ -489,6 +600,48 @@ fn main() {
             v.imm.push((last + 2, "primary".into(), 12));
             v.hist = (0..=last).map(|b| tree(b, false)).collect();
             variants.push(v);
+            // files changing on disk between the computations of one long-lived object
+            for k in 0..2 {
+                let mut v = base.clone();
+                v.kind = "random-live".into();
+                let cached = k == 1;
+                v.hist = vec![tree(last, cached), range(0, last, cached)];
+                for _ in 0..1 + below(&mut r, 2) {
+                    let f = &base.imm[below(&mut r, base.imm.len() as u64) as usize];
+                    let cid = match below(&mut r, 3) {
+                        0 => -1,
+                        1 => 30 + below(&mut r, 5) as i64,
+                        _ => if f.2 == 0 { 400 } else { ((1 + below(&mut r, 4)) * 100 + f.2) as i64 },
+                    };
+                    v.hist.push(perturb(format!("{:05}.{}", f.0, f.1), cid));
+                }
+                if below(&mut r, 3) == 0 {
+                    v.hist.push(restart());
+                }
+                v.hist.push(tree(last, cached));
+                v.hist.push(range(below(&mut r, last + 1), last, cached));
+                v.hist.push(tree(last, false));
+                variants.push(v);
+            }
+            // something that is no regular file under an immutable file name
+            {
+                let mut v = base.clone();
+                v.kind = "random-nonreg".into();
+                let k = below(&mut r, v.imm.len() as u64) as usize;
+                let f = v.imm.remove(k);
+                let (kind, cid) = match below(&mut r, 4) {
+                    0 => ("dir", -1),
+                    1 => ("dangling", -1),
+                    2 => ("link", f.2 as i64),
+                    _ => ("link", 35),
+                };
+                v.nonreg.push((f.0, f.1, kind.to_string(), cid));
+                v.hist = (0..=last).map(|b| tree(b, false)).collect();
+                v.hist.push(range(0, last, false));
+                if !v.imm.is_empty() {
+                    variants.push(v);
+                }
+            }
             // perturbations
             for _ in 0..3 {
                 let mut v = base.clone();
